@@ -33,7 +33,7 @@ def tree_stages(ctx):
         stages.stage_sim(ctx, "Tree", num=300, depth=30)
     else:
         stages.stage_mc(ctx, "Tree", timeout=3000)
-        stages.stage_sim(ctx, "Tree", num=600, depth=40)
+        stages.stage_sim(ctx, "Tree", num=400, depth=40)
 
 
 RULE_WALK = ("cases are transitions of the bounded TLA+ model (Gtirb.tla under the listed configurations), each "
@@ -95,7 +95,7 @@ def p_geom(ctx):
 
 @plan("C12")
 def p_lazy(ctx):
-    names = ["LazyB", "LazyIQ", "LazyMove"] if ctx.quick() else ["LazyB", "LazyI", "LazyIT", "LazyMove"]
+    names = ["LazyB", "LazyIQ", "LazyMove", "LazySetI"] if ctx.quick() else ["LazyB", "LazyI", "LazyIT", "LazyMove", "LazySetI"]
     parallel(lambda n: run_tlc_config(n, emit=True), names)
     for n in names:
         stages.stage_lazy(ctx, n, max_run=150, bases=(0,) if ctx.quick() else (0, core.BASES["2^64-40"]))
@@ -221,7 +221,7 @@ def lazy_class_stage(ctx):
 
 @plan("C10")
 def p_sym(ctx):
-    names = ["Sym1", "Sym2"]
+    names = ["Sym1", "Sym2", "Sym3"]
     results = parallel(lambda n: run_tlc_config(n, emit=True), names)
     for n, r in zip(names, results):
         stages.stage_graph(ctx, n, result=r)
